@@ -225,7 +225,7 @@ def build_driver(name):
     """Extract coq/Extract/D_<name>.v to OCaml and link it with the generic driver. Returns (ok, exe|log)."""
     d = os.path.join(BUILD, "ocaml", name)
     os.makedirs(d, exist_ok=True)
-    vfile = "Extract/D_%s.v" % name
+    vfile = "Extract/%s.v" % name
     ok, log = build([vfile + "o"])
     if not ok:
         return False, log
@@ -234,7 +234,7 @@ def build_driver(name):
     ext = os.path.join(d, "extract.v")
     with open(ext, "w") as fh:
         fh.write("From Coq Require Extraction ExtrOcamlBasic.\n"
-                 "From PM Require Import Lib.Py Extract.D_%s.\n" % name)
+                 "From PM Require Import Lib.Py Extract.%s.\n" % name)
         fh.write("Extraction Language OCaml.\n"
                  "Extraction \"model.ml\" dispatch zadd zmul str_of_Z exn_tag.\n")
     stamp = os.path.join(d, "stamp")
